@@ -181,11 +181,13 @@ def harness_exe(release=False):
 
 
 # ------------------------------------------------------------------ running
-def run_impl(spec_path, hist_path, trace_path, timeout=120, release=False, threads=None):
+def run_impl(spec_path, hist_path, trace_path, timeout=120, release=False, threads=None, migrate=False):
     """Run one history on the real crate.  Returns 'ok' | 'abort' | 'timeout'."""
     cmd = [harness_exe(release), spec_path, hist_path]
     if threads:
         cmd += ['--threads', str(threads)]
+    if migrate:
+        cmd += ['--migrate']
     with open(trace_path, 'w') as out, open(trace_path + '.err', 'w') as err:
         try:
             p = subprocess.run(cmd, stdout=out, stderr=err, timeout=timeout, env=ENV)
@@ -225,7 +227,7 @@ def compare_traces(impl_path, model_path):
     a = truncate_after_fatal([l.rstrip('\n') for l in open(impl_path)])
     b = truncate_after_fatal([l.rstrip('\n') for l in open(model_path)])
     # allocation-count lines exist on the implementation side only
-    a = [l for l in a if not (l.startswith('A ') or l.startswith('AG ') or l.startswith('MI '))]
+    a = [l for l in a if not (l.startswith('A ') or l.startswith('AG ') or l.startswith('MI ') or l.startswith('THREADS '))]
     b = [l for l in b if not l.startswith('MI ')]
     for i, (x, y) in enumerate(zip(a, b)):
         if x != y:
@@ -255,8 +257,9 @@ def run_cases(cases, outdir, with_model=True, release=False, timeout=120):
         c.spec_path, c.hist_path = base + '.spec', base + '.hist'
         c.impl_path, c.model_path = base + '.impl', base + '.model'
         open(c.spec_path, 'w').write("\n".join(c.spec) + "\n")
-        c.status = run_impl(c.spec_path, c.hist_path, c.impl_path, timeout=timeout, release=release)
-        if with_model:
+        c.status = run_impl(c.spec_path, c.hist_path, c.impl_path, timeout=timeout, release=release,
+                            threads=c.meta.get('threads'), migrate=c.meta.get('migrate', False))
+        if with_model and not c.meta.get('no_model'):
             c.model_status = run_model(c.hist_path, c.model_path)
             c.diff = compare_traces(c.impl_path, c.model_path)
             if c.model_status != 'ok' and c.diff is None:
@@ -313,11 +316,14 @@ def parse_trace(trace_path, hist_path):
                 ops.append((cmd, l))
     lines = [l.rstrip('\n') for l in open(trace_path)]
     new_res = None
+    threads = None
     init = Step()
     steps = []
     cur = init
     for l in lines:
-        if l.startswith('NEW '):
+        if l.startswith('THREADS '):
+            threads = l[8:]
+        elif l.startswith('NEW '):
             new_res = l[4:]
         elif l.startswith('R '):
             cur = Step()
@@ -341,7 +347,7 @@ def parse_trace(trace_path, hist_path):
             cur.allocs = int(l[2:])
         elif l.startswith('AG '):
             cur.galloc = int(l[3:])
-    return {'ty': ty, 'new_kv': new_kv, 'new': new_res, 'init': init, 'steps': steps}
+    return {'ty': ty, 'new_kv': new_kv, 'new': new_res, 'init': init, 'steps': steps, 'threads': threads}
 
 
 def expand_samples(s, ty='f64'):
